@@ -38,4 +38,13 @@ func init() {
 		Bounds:   "param (pre-emption budget); 2 delivering goroutines under the engine (8 natively, 400 rounds)",
 		Assumes:  []string{"threads are atomic between visible operations", "native replay by repetition"},
 	})
+	register(Harness{
+		Prop: "C09", Pkg: "storage/mem", Func: "VerifC09EvictVsRemove",
+		Quick:    [][]int64{{2}},
+		Thorough: [][]int64{{2}, {3}},
+		Unwind:   40,
+		Desc:     "size limit: a client removes the store's oldest message while a delivery to another mailbox makes the enforcer pick that same message for eviction; both return and the enforcer's accounting stays exact (a message that fits afterwards evicts nothing)",
+		Bounds:   "param (pre-emption budget); 2 client goroutines + enforcer; sizes 600/600/400/1 bytes against 1 KiB",
+		Assumes:  []string{"threads are atomic between visible operations", "native replay by repetition (300 rounds)"},
+	})
 }
